@@ -1293,3 +1293,78 @@ def idle_core_windows(repo, rep, rule):
                 else:
                     rep.check(not l1, rule, f"ethosu/vela/register_command_stream_generator.py:{fname}", f"one range, one core: `{len1}` is not written", f"emitted {l1}")
     rep.floor(rule, 4)
+
+
+def enum_class_agreement(repo, rep, rule):
+    """Members of two different Enum classes never compare equal, whatever their names and values (`NpuResamplingMode.NONE !=
+    resampling_mode.NONE`). A variable's enum class is inferred from its parameter annotation, from `v = <Enum>.<MEMBER>`, or from
+    `v = <table>[..]` where <table> is a module-level dict literal whose values are members of one class. Decided: (1) every `v == / != / is
+    <Enum>.<MEMBER>` compares within one class; (2) a variable of known class passed positionally to a function of the repo whose parameter
+    is annotated with an enum class is of that class. Returns the number of comparisons / arguments looked at."""
+    import ast
+
+    from ..exprnorm import norm
+
+    bases = ("Enum", "IntEnum", "IntFlag", "Flag")
+    enums = set()
+    trees = [(m.name, m.tree) for m in repo.core_modules()]
+    try:
+        import os
+
+        regs = os.path.join(repo.root, "ethosu", "vela", "ethos_u55_regs", "ethos_u55_regs.py")
+        trees.append(("ethos_u55_regs", ast.parse(open(regs).read())))
+    except OSError:
+        pass
+    for _, tree in trees:
+        for c in ast.walk(tree):
+            if isinstance(c, ast.ClassDef) and any((getattr(b, "id", None) or getattr(b, "attr", None)) in bases for b in c.bases):
+                enums.add(c.name)
+    tables = {}
+    for _, tree in trees:
+        for st in tree.body:
+            if isinstance(st, ast.Assign) and isinstance(st.value, ast.Dict) and isinstance(st.targets[0], ast.Name) and st.value.values:
+                cl = {v.value.id for v in st.value.values if isinstance(v, ast.Attribute) and isinstance(v.value, ast.Name) and v.value.id in enums}
+                if len(cl) == 1 and all(isinstance(v, ast.Attribute) for v in st.value.values):
+                    tables[st.targets[0].id] = cl.pop()
+
+    def ann_class(a):
+        an = a.annotation
+        nm = an.id if isinstance(an, ast.Name) else (an.attr if isinstance(an, ast.Attribute) else None)
+        return nm if nm in enums else None
+
+    sigs = {}
+    for m in repo.core_modules():
+        for q, fn in m.functions.items():
+            if "." not in q:
+                sigs.setdefault(q, []).append([ann_class(a) for a in fn.args.args])
+    n = 0
+    for m in repo.core_modules():
+        for q, fn in m.functions.items():
+            cls = {}
+            for a in fn.args.args + fn.args.kwonlyargs:
+                if a.annotation is not None and ann_class(a):
+                    cls[a.arg] = ann_class(a)
+            for st in ast.walk(fn):
+                if isinstance(st, ast.Assign) and len(st.targets) == 1 and isinstance(st.targets[0], ast.Name):
+                    v = st.value
+                    if isinstance(v, ast.Subscript) and isinstance(v.value, ast.Name) and v.value.id in tables:
+                        cls.setdefault(st.targets[0].id, tables[v.value.id])
+                    elif isinstance(v, ast.Attribute) and isinstance(v.value, ast.Name) and v.value.id in enums:
+                        cls.setdefault(st.targets[0].id, v.value.id)
+            site = f"ethosu/vela/{m.name}.py:{q}"
+            for c in ast.walk(fn):
+                if isinstance(c, ast.Compare) and len(c.ops) == 1 and isinstance(c.ops[0], (ast.Eq, ast.NotEq, ast.Is, ast.IsNot)):
+                    for a, b in ((c.left, c.comparators[0]), (c.comparators[0], c.left)):
+                        if isinstance(a, ast.Name) and a.id in cls and isinstance(b, ast.Attribute) and isinstance(b.value, ast.Name) and b.value.id in enums:
+                            n += 1
+                            rep.check(cls[a.id] == b.value.id, rule, site, f"`{norm(c)}` compares members of one enum class ({b.value.id})",
+                                      f"`{norm(c)}`: `{a.id}` is a {cls[a.id]} (from its annotation / the table it is read from), `{norm(b)}` a {b.value.id}: members of different Enum classes are never equal, "
+                                      "the comparison has one outcome for every input")
+                if isinstance(c, ast.Call) and isinstance(c.func, ast.Name) and len(sigs.get(c.func.id, [])) == 1:
+                    sig = sigs[c.func.id][0]
+                    for i, a in enumerate(c.args):
+                        if isinstance(a, ast.Name) and a.id in cls and i < len(sig) and sig[i]:
+                            n += 1
+                            rep.check(cls[a.id] == sig[i], rule, site, f"`{norm(c)[:80]}`: argument `{a.id}` ({cls[a.id]}) for a parameter annotated {sig[i]}",
+                                      f"`{norm(c)[:80]}` passes `{a.id}`, a {cls[a.id]}, to a parameter that `{c.func.id}` compares as {sig[i]}: the callee's comparisons are constant")
+    return n
